@@ -125,9 +125,11 @@ def main():
         return 3
     jobs = []
     lim = spec.get("cfg_limit", {}).get(tier)
+    limited = set()
     for h in hs:
         cfgs = h.configs(tier)
         if lim and len(cfgs) > lim and not args.cfg:
+            limited.add(h.name)
             # this property's clauses (frame / no-exception) do not depend on the soil catalogue: an evenly spaced subset of the
             # harness's configurations is explored in this tier (the full set in the thorough tier)
             step = len(cfgs) / float(lim)
@@ -214,6 +216,8 @@ def main():
         if args.cfg:
             break
         for g in h.opts.get("goals", []):
+            if h.name in limited:
+                continue      # vacuity guard needs the harness's full configuration list (it is checked by the other properties' runs)
             if g not in reached.get(h.name, set()):
                 inconclusive.append(f"{h.name}: coverage goal '{g}' not reached in any configuration (vacuity guard)")
     # cross checks registered for the property (non-path-based checks)
